@@ -151,6 +151,7 @@ func (s *segmentMetadata) getIndex(vecIdx VectorIndex, txtIdx TextIndex, metaIdx
 	combinedReader := io.MultiReader(readers...)
 
 	// Deserialize the index
+	verifPoint("segment:load", s.id, idx.VectorIndex(), idx.TextIndex(), idx.MetadataIndex())
 	if readerFrom, ok := idx.(io.ReaderFrom); ok {
 		if _, err := readerFrom.ReadFrom(combinedReader); err != nil {
 			return nil, fmt.Errorf("failed to deserialize segment: %w", err)
